@@ -9,7 +9,7 @@ Oracle : a 30-line transcription of the statement (model.time_windows): referenc
 """
 import itertools
 
-from ..common import Check, Outcome, bootstrap, interleave, with_prelude, prelude_tags, shrink_prelude, PRELUDE_TAGS
+from ..common import Check, Outcome, bootstrap, interleave, with_prelude, prelude_tags, shrink_prelude, PRELUDE_TAGS, PRELUDE_RULE
 from .. import windows, model
 
 rs = bootstrap()
@@ -39,6 +39,7 @@ class C07(Check):
             '(contains timeout-1, timeout, timeout+1 for active=4 and inactive=2) x start offset 0..2 x all 12 configurations (each timeout present/None, closing mapper '
             'present/None, include True/False); then random sequences up to 60 items with other timeouts, timestamps as int and as datetime/timedelta (a twelfth of the cases at day scale: timeouts of a day to a week, gaps of days to a year), under group_by '
             'with interleaved keys, in roll and in split. non-trivial = some key lifetime has >= 2 windows; distinct = hash of the case')
+    RULE += PRELUDE_RULE
     ASSUMPTIONS = ['timestamps are non-decreasing per key; timeouts are >= 0 (a zero timeout makes every item open a new window, as the statement says)',
                    'closing_mapper returns a bool']
     ANCHORS = ['rxsci/data/time_split.py', 'rxsci/operators/multiplex.py']
